@@ -168,7 +168,7 @@ pub fn run(tier: Tier, shard: Shard, rep: &mut Report) {
                 rep.sample(json!({"case": case_json(scn, k, None), "call": trace.get(k as usize).map(|e| e.brief().replace("/dev/shm/", ""))}));
             }
         }
-        if tier == Tier::Thorough && scn.front != "stack" {
+        if tier == Tier::Thorough && !scn.front.starts_with("stack") {
             // depth 2: for each first crash, the recovering set dies at each of its own calls
             // (bounded: recovery traces are <= ~60 calls)
             for k in 0..=(n as u64) {
